@@ -14,6 +14,7 @@ import (
 	"verif/ref/jcs"
 	"verif/ref/mh"
 
+	"github.com/trustbloc/sidetree-go/pkg/docutil"
 	"github.com/trustbloc/sidetree-go/pkg/versions/1_0/operationparser"
 )
 
@@ -120,7 +121,7 @@ func perms(n int) [][]int {
 }
 
 func Run(r *core.Run) {
-	r.Rule = "create requests: patch lists of length 1-2 over all 8 actions (+ 2 patches with unusually spelled URIs) x anchor origin {absent,string,object,number beyond 2^64,object with a number beyond 2^53, empty string, false, 0, [], {}} x type {absent,set} x hash code x multihash configuration {[18],[19],[18,19],[19,18]} x 2 namespaces; " +
+	r.Rule = "create requests: patch lists of length 1-2 over all 8 actions (+ 2 patches with unusually spelled URIs) x anchor origin {absent,string,object,number beyond 2^64,object with a number beyond 2^53, empty string, false, 0, [], {}} x type {absent,set} x hash code x multihash configuration {[18],[19],[18,19],[19,18]} x 2 namespaces (every 4th request: 6, incl. namespaces ending in the delimiter and the empty one); " +
 		"(i) suffix = mh(first configured algorithm, JCS(suffix data)), id = namespace:suffix; (ii) every member order of every object (<= 4! each), whitespace at every token boundary (<= 2 insertions), \\u spellings: same DID; " +
 		"(iii) every single-field modification of suffix data or delta, and every string of the delta respelled (case, scheme case, blanks, empty fragment, percent-escape case) and every number of the delta replaced by its neighbouring doubles, +1 and whole numbers beyond 2^64: DID changes or request rejected; distinct = distinct request texts; non-trivial = all"
 	r.Assumptions = []string{"reference suffix from ref/mh + ref/jcs over the suffix data model {deltaHash, recoveryCommitment, anchorOrigin, type}", "unknown extra members are out of scope (dropped by the decoder by design; rejected on the long-form path, C17)"}
@@ -182,7 +183,12 @@ func Run(r *core.Run) {
 			p := ops.Proto()
 			p.MultihashAlgorithms = c.algs
 			parser := operationparser.New(p)
-			for _, ns := range nss {
+			all := nss
+			if ri%4 == 0 {
+				// namespaces that end in the delimiter, are empty or are the delimiter alone: the DID is the namespace, a colon and the suffix, whatever the namespace
+				all = append(append([]string{}, nss...), "did:sidetree:", "did:a:b::", "", ":")
+			}
+			for _, ns := range all {
 				id := fmt.Sprintf("suffix/%s/cfg%d/%s", rq.label, ci, ns)
 				if !allowed(c, rq.code) {
 					// hashes of a non-configured algorithm: must be rejected
@@ -203,6 +209,9 @@ func Run(r *core.Run) {
 					}
 					if op.UniqueSuffix != want || op.ID != ns+":"+want {
 						return &core.Fail{Key: id, What: fmt.Sprintf("suffix %s / id %s, expected hash of canonical suffix data %s", op.UniqueSuffix, op.ID, want), Detail: det}
+					}
+					if cid, err := docutil.CalculateID(ns, rq.m["suffixData"], c.algs[0]); err != nil || cid != ns+":"+want {
+						return &core.Fail{Key: id, What: fmt.Sprintf("docutil.CalculateID gives %q (%v), expected %q", cid, err, ns+":"+want), Detail: det}
 					}
 					return nil
 				})
